@@ -7,7 +7,11 @@
    Conventions.
    * Snapshot keys/names are [nat] (the harness prints name n as "k%02d"); the empty parent "" is [None].
    * Labels: only what the code looks at is kept: the target label containerd.io/snapshot.ref ([l_target]),
-     presence of containerd.io/snapshot/remote ([l_remote]) and one opaque user label ([l_user], 0 = absent).
+     presence of containerd.io/snapshot/remote ([l_remote]), one opaque label inside the containerd.io/snapshot/
+     namespace ([l_user]) and one outside it ([l_ext]); for both: 0 = absent, 1 = present with the EMPTY value,
+     n >= 2 = present with value "n". boltutil.WriteLabels drops empty-valued labels when it persists a label map
+     ([norm]); the backend Mount of a Prepare sees the caller's map as passed. Names >= 1000 stand for strings that
+     cannot be bucket names (1000 = "", 1001 = longer than bolt's key limit): committing to such a name fails.
    * Every API call is ONE op whose body is the sequence of the sub-steps the Go code performs
      (write transaction, directory operations, backend calls), written as separate functions below so that
      crash points (Model/SnapCrash.v) can cut between them.
@@ -24,9 +28,16 @@ Import ListNotations.
 Inductive kind := KView | KActive | KCommitted.
 Definition name := nat.
 
-Record labels := mkL { l_target : option name; l_remote : bool; l_user : nat }.
-Definition no_labels := mkL None false 0.
-Definition set_remote (l : labels) := mkL (l_target l) true (l_user l).
+Record labels := mkL { l_target : option name; l_remote : bool; l_user : nat; l_ext : nat }.
+Definition no_labels := mkL None false 0 0.
+Definition set_remote (l : labels) := mkL (l_target l) true (l_user l) (l_ext l).
+Definition bad_name (n : name) : bool := Nat.leb 1000 n.
+(* what metadata keeps of a label map: empty-valued entries are dropped *)
+Definition nz (n : nat) : nat := if Nat.eqb n 1 then 0 else n.
+Definition norm (l : labels) : labels :=
+  mkL (match l_target l with Some t => if Nat.eqb t 1000 then None else Some t | None => None end)
+      (l_remote l) (nz (l_user l)) (nz (l_ext l)).
+Arguments norm : simpl never.
 
 Record info := mkI { i_id : nat; i_kind : kind; i_parent : option name; i_labels : labels }.
 
@@ -215,6 +226,7 @@ Definition commit_active (s : st) (nm key : name) (l : labels) (is_remote : bool
   | None => (s, Some ENotFound)
   | Some i =>
       if negb is_remote && negb (has_dir s (DId (i_id i))) then (s, Some EOther) else
+      if bad_name nm then (s, Some EOther) else      (* CreateBucket(name): empty / oversized key *)
       match lookup (meta s) nm with
       | Some _ => (s, Some EExists)
       | None =>
@@ -290,18 +302,20 @@ Inductive op :=
 | Stat (nm : name)
 | Close (ubad : list nat).
 
-Definition do_prepare (s : st) key parent l mok cbad : st * res :=
+(* [l] = the labels as metadata keeps them ([norm] of the caller's), [lm] = the caller's label map as passed
+   (what decides about the target and what the backend Mount sees) *)
+Definition do_prepare (s : st) key parent l mok cbad (lm : labels) : st * res :=
   match create_snapshot s KActive key parent l with
   | (s1, inl e) => (s1, RErr e)
   | (s1, inr sn) =>
-      match l_target l with
+      match l_target lm with
       | None => mounts_of cbad s1 sn parent
       | Some t =>
           (* prepareRemoteSnapshot: GetInfo(key) then fs.Mount(upperPath(id), labels) *)
           match lookup (meta s1) key with
           | None => mounts_of cbad s1 sn parent
           | Some i =>
-              let s2 := fs_mount s1 (i_id i) l mok in
+              let s2 := fs_mount s1 (i_id i) lm mok in
               if mok then
                 match commit_active s2 t key (set_remote l) true with
                 | (s3, None) => (emit s3 (EvRemoteCommit (i_id i)), RTargetExists)
@@ -380,14 +394,14 @@ Definition do_stat (s : st) nm : st * res :=
 
 Definition step (s : st) (o : op) : st * res :=
   match o with
-  | Prepare key parent l mok cbad => do_prepare s key parent l mok cbad
-  | View key parent l cbad => do_view s key parent l cbad
+  | Prepare key parent l mok cbad => do_prepare s key parent (norm l) mok cbad l
+  | View key parent l cbad => do_view s key parent (norm l) cbad
   | Commit nm key l =>
-      let '(s1, r) := commit_active s nm key l false in (s1, match r with None => ROk | Some e => RErr e end)
+      let '(s1, r) := commit_active s nm key (norm l) false in (s1, match r with None => ROk | Some e => RErr e end)
   | Mounts key cbad => do_mounts s key cbad
   | Remove key ubad => do_remove s key ubad
   | Cleanup ubad => do_cleanup s ubad
-  | Update nm l => do_update s nm l
+  | Update nm l => do_update s nm (norm l)
   | Stat nm => do_stat s nm
   | Close ubad => do_close s ubad
   end.
@@ -429,13 +443,18 @@ Definition target_outcome (s s' : st) (key : name) (l : labels) (mok : bool) (t 
   | RTargetExists =>
       exists i, lookup (meta s') t = Some i /\ i_kind i = KCommitted /\
         (lookup (meta s) t = None ->
-           i_labels i = set_remote l /\ mount_count s' (i_id i) = 1 /\ In (DId (i_id i)) (dirs s') /\
+           i_labels i = set_remote (norm l) /\ mount_count s' (i_id i) = 1 /\ In (DId (i_id i)) (dirs s') /\
            lookup (meta s') key = None)
   | RMounts m =>
       mok = false /\
-      exists i, lookup (meta s') key = Some i /\ i_kind i = KActive /\ i_labels i = l /\
+      exists i, lookup (meta s') key = Some i /\ i_kind i = KActive /\ i_labels i = norm l /\
         mounted s' (i_id i) = false /\ (m = MBind (i_id i) false \/ exists lw, m = MOverlay (Some (i_id i)) lw)
-  | RErr e => meta s' = meta s \/ (e = EUnavail /\ mok = false)
+  | RErr e =>
+      meta s' = meta s \/ (e = EUnavail /\ mok = false) \/
+      (* the backend Mount succeeded but the internal commit failed (not AlreadyExists): no fallback; the key stays
+         behind as an active, not-remote snapshot with its live backend mount ("this key must not be used again") *)
+      (mok = true /\ e <> EExists /\
+       exists i, lookup (meta s') key = Some i /\ i_kind i = KActive /\ i_labels i = norm l /\ mount_count s' (i_id i) = 1)
   | _ => False
   end.
 
@@ -457,7 +476,8 @@ Definition kind_n (k : kind) : nat := match k with KView => 0 | KActive => 1 | K
 Definition opt_eqb (a b : option nat) : bool :=
   match a, b with None, None => true | Some x, Some y => Nat.eqb x y | _, _ => false end.
 Definition labels_eqb (a b : labels) : bool :=
-  opt_eqb (l_target a) (l_target b) && Bool.eqb (l_remote a) (l_remote b) && Nat.eqb (l_user a) (l_user b).
+  opt_eqb (l_target a) (l_target b) && Bool.eqb (l_remote a) (l_remote b) && Nat.eqb (l_user a) (l_user b)
+  && Nat.eqb (l_ext a) (l_ext b).
 Fixpoint natlist_eqb (a b : list nat) : bool :=
   match a, b with
   | [], [] => true
